@@ -120,6 +120,59 @@ def _field_builders():
     }
 
 
+def _default_builders():
+    """kind -> (constructor taking default=..., a valid constant default); challenge / secure fields are left
+    out on purpose (their stored form is salted / encrypted per configuration)"""
+    import cincoconfig as cc
+    from cincoconfig.core import Field
+
+    def sub():
+        s = cc.Schema()
+        s.q = cc.IntField()
+        return s
+    return {
+        "int": (lambda **kw: cc.IntField(**kw), 5), "str": (lambda **kw: cc.StringField(**kw), "x"),
+        "float": (lambda **kw: cc.FloatField(**kw), 1.5), "bool": (lambda **kw: cc.BoolField(**kw), True),
+        "bytes": (lambda **kw: cc.BytesField(**kw), b"ab"), "field": (lambda **kw: Field(**kw), "any"),
+        "number_int": (lambda **kw: cc.NumberField(int, **kw), 3), "number_float": (lambda **kw: cc.NumberField(float, **kw), 2.5),
+        "port": (lambda **kw: cc.PortField(**kw), 8080), "ipv4": (lambda **kw: cc.IPv4AddressField(**kw), "10.0.0.1"),
+        "ipv4net": (lambda **kw: cc.IPv4NetworkField(**kw), "10.0.0.0/8"),
+        "hostname": (lambda **kw: cc.HostnameField(**kw), "localhost"),
+        "filename": (lambda **kw: cc.FilenameField(**kw), "a.txt"), "url": (lambda **kw: cc.UrlField(**kw), "http://a.b/"),
+        "loglevel": (lambda **kw: cc.LogLevelField(**kw), "info"),
+        "appmode": (lambda **kw: cc.ApplicationModeField(**kw), "production"),
+        "include": (lambda **kw: cc.IncludeField(**kw), "inc.json"),
+        "featureflag": (lambda **kw: cc.FeatureFlagField(**kw), True),
+        "list": (lambda **kw: cc.ListField(**kw), [1, "a"]), "list_int": (lambda **kw: cc.ListField(cc.IntField(), **kw), [1, 2]),
+        "list_str": (lambda **kw: cc.ListField(cc.StringField(), **kw), ["a"]),
+        "list_list_int": (lambda **kw: cc.ListField(cc.ListField(cc.IntField()), **kw), [[1], []]),
+        "list_sub": (lambda **kw: cc.ListField(sub(), **kw), [{"q": 1}]),
+        "list_ct": (lambda **kw: cc.ListField(cc.make_type(sub(), "Item"), **kw), [{"q": 2}]),
+        "dict": (lambda **kw: cc.DictField(**kw), {"a": 1}),
+        "dict_str_int": (lambda **kw: cc.DictField(cc.StringField(), cc.IntField(), **kw), {"a": 1}),
+        "dict_str_listint": (lambda **kw: cc.DictField(cc.StringField(), cc.ListField(cc.IntField()), **kw), {"a": [1]}),
+    }
+
+
+DEFAULT_KINDS = ["int", "str", "float", "bool", "bytes", "field", "number_int", "number_float", "port", "ipv4", "ipv4net",
+                 "hostname", "filename", "url", "loglevel", "appmode", "include", "featureflag", "list", "list_int",
+                 "list_str", "list_list_int", "list_sub", "list_ct", "dict", "dict_str_int", "dict_str_listint"]
+DEFAULT_MODES = ["const", "callable", "none"]
+
+
+def build_field(rec):
+    """["f", kind] or ["f", kind, "const"|"callable"|"none"] (a field constructed with default=...)"""
+    if len(rec) < 3:
+        return _field_builders()[rec[1]]()
+    import copy
+    ctor, const = _default_builders()[rec[1]]
+    if rec[2] == "const":
+        return ctor(default=copy.deepcopy(const))
+    if rec[2] == "callable":
+        return ctor(default=lambda v=const: copy.deepcopy(v))
+    return ctor(default=None)
+
+
 FIELD_KINDS_F52 = ["list_local_ct", "list_nested_local_ct", "dict_str_local", "st_optional_local"]
 ANNS_F52 = ["Optional[Local]", "List[Endpoint]", "Dict[str, LocalItem]"]
 POOL_F52 = [
@@ -155,7 +208,7 @@ def build(fields, dynamic=False):
     fns = {}
     for key, rec in fields:
         if rec[0] == "f":
-            s._add_field(key, fb[rec[1]]())
+            s._add_field(key, build_field(rec))
         elif rec[0] in ("schema", "dschema"):
             sub, _ = build(rec[1], dynamic=rec[0] == "dschema")
             s._add_field(key, sub)
@@ -563,7 +616,8 @@ def check_text(text, exp_class, exp_attrs, exp_init, exp_methods):
         return ["generate_stub did not return a string"]
     try:
         tree = ast.parse(text)
-    except SyntaxError:
+        compile(text, "<stub>", "exec")      # the WHOLE text, also what only the compiler rejects
+    except (SyntaxError, ValueError):
         return ["the generated stub is not valid Python"]
     classes = [n for n in tree.body if isinstance(n, ast.ClassDef)]
     if len(classes) != 1 or len(tree.body) != 1:
@@ -582,8 +636,10 @@ def check_text(text, exp_class, exp_attrs, exp_init, exp_methods):
     else:
         a = inits[0].args
         got = [x.arg for x in a.posonlyargs + a.args]
-        if got != ["self"] + exp_init or a.vararg or a.kwonlyargs or a.kwarg:
+        if got != ["self"] + exp_init or a.vararg or a.kwonlyargs or a.kwarg or a.posonlyargs:
             bad.append("__init__ parameters differ from self + the persistent fields")
+        if any(x.annotation is None for x in a.args[1:]):
+            bad.append("an __init__ parameter has no annotation")
     if sorted(n for n in names if n != "__init__") != sorted(k for k, _ in exp_methods):
         bad.append("the methods of the stub differ from the instance methods of the schema")
     for k, want in exp_methods:
@@ -667,6 +723,8 @@ def tags(c, obs):
     for key, rec in c["fields"]:
         if rec[0] == "f":
             t.add("kind=" + rec[1])
+            if len(rec) > 2:
+                t.add("default=" + rec[2])
         elif rec[0] == "method":
             nm += 1
             src = rec[1]
@@ -855,7 +913,11 @@ def rfields(rng, depth=0, allow_methods=True):
             elif r < 0.31:
                 fields.append([k, ["f", rng.choice(FIELD_KINDS_F52)]])
             else:
-                fields.append([k, ["f", rng.choice(FIELD_KINDS)]])
+                kind = rng.choice(FIELD_KINDS)
+                if kind in DEFAULT_KINDS and rng.random() < 0.45:
+                    fields.append([k, ["f", kind, rng.choice(DEFAULT_MODES)]])
+                else:
+                    fields.append([k, ["f", kind]])
     return fields
 
 
@@ -904,6 +966,25 @@ def generate(rng, tier):
     cases.append(case([]))
     for kind in FIELD_KINDS:                                   # every field kind alone, and after a sibling
         cases.append(case([["x", ["f", kind]]]))
+    # defaults: every default-capable kind with a constant default before AND after a field without one;
+    # callable / None defaults before one; a defaulted field before every other kind of entry; interleavings
+    req = ["req", ["f", "str"]]
+    for kind in DEFAULT_KINDS:
+        cases.append(case([["x", ["f", kind, "const"]], list(req)]))
+        cases.append(case([list(req), ["x", ["f", kind, "const"]]]))
+        cases.append(case([["x", ["f", kind, "callable"]], list(req)]))
+        cases.append(case([["x", ["f", kind, "none"]], list(req)]))
+    d1, d2 = ["d1", ["f", "int", "const"]], ["d2", ["f", "list_int", "callable"]]
+    for follower in (["sub", ["schema", [["q", ["f", "int", "const"]], ["r", ["f", "str"]]]]], ["dsub", ["dschema", []]],
+                     ["ct", ["ct", "CT"]], ["lst", ["f", "list_sub"]], ["lct", ["f", "list_ct"]], ["v", ["f", "virtual"]],
+                     ["m", ["method", POOL[28]]], ["ch", ["f", "challenge"]], ["lc", ["f", "local_ct"]]):
+        for tgt in ("schema", "config", "type"):
+            cases.append(case([list(d1), list(follower)], target=tgt, type_name="WithDefaults"))
+        cases.append(case([list(follower), list(d1)]))
+        cases.append(case([list(d1), list(follower), list(d2), list(req)]))
+    for perm in ([d1, req, d2], [req, d1, d2], [d1, d2, req], [d1, req, d2, ["r2", ["f", "int"]]], [d1, d2],
+                 [["n1", ["f", "str", "none"]], d1, req]):
+        cases.append(case([list(x) for x in perm]))
     cases.append(case([["sub", ["schema", [["q", ["f", "int"]], ["m", ["method", POOL[7]]]]]]]))
     cases.append(case([["sub", ["schema", []]]]))
     cases.append(case([["ct", ["ct", "CT"]]]))
